@@ -82,7 +82,8 @@ theorem mapM'_OkAr {f : V → R V} : ∀ {xs : List V}, (∀ x ∈ xs, OkAr (f x
 /-! ### class-level base case (regenerated tables) -/
 
 def isStdValueCls (b : Cls) : Bool :=
-  [Cls.NoneType, .bool, .int, .float, .str, .bytes, .PosixPath, .list, .tuple, .set, .frozenset, .dict].contains b
+  [Cls.NoneType, .bool, .int, .float, .str, .bytes, .PosixPath, .FieldInteger, .FieldDecimal, .FieldText, .FieldBoolean,
+   .list, .tuple, .set, .frozenset, .dict].contains b
 
 /-- the class a value conforming to a source type with origin/class `a` is an instance of -/
 def effCls (a : Cls) : Cls := if a == MIO then .list else a
